@@ -57,6 +57,7 @@ type Gen struct {
 	mapNonNil      map[string][]string
 	boxNonNil      map[string][]string
 	callVacuity    bool                 // -callvac
+	selfContained  []string             // -selfcontained: the requested properties (experimental)
 	cwUsed         map[string]bool      // callees some contract asks `calledwith` about
 	oldSyms        map[string]*symEntry // symbol table of the pinned tree (-symtab)
 	renameCache    map[*ssa.Function]map[string]string
@@ -387,6 +388,7 @@ func main() {
 	frameF := flag.Bool("frames", false, "print inferred frames of selected functions")
 	noSlice := flag.Bool("noslice", false, "write full (unsliced) queries")
 	callVac := flag.Bool("callvac", false, "add a reachability (vacuity) obligation after every call site")
+	selfC := flag.Bool("selfcontained", false, "experimental: an obligation that the requested properties do not carry is not assumed after it is emitted (a run then rests only on what it checks itself)")
 	symtabF := flag.String("symtab", "", "symbol table of the pinned tree (baseline/symtab.json): tolerate renamed parameters/locals, inline helpers that are new")
 	flag.Parse()
 	if *out == "" {
@@ -405,6 +407,9 @@ func main() {
 	var want []string
 	if *propsF != "" {
 		want = strings.Split(*propsF, ",")
+	}
+	if *selfC {
+		g.selfContained = want
 	}
 	idx := &outIndex{Notes: map[string][]string{}, Extra: map[string]any{}}
 	idx.Symtab = g.symtabOfTree()
